@@ -182,6 +182,25 @@ Fixpoint pascal_row (i : nat) : list Z :=
   match i with O => [1] | S i' => let r := pascal_row i' in zip_add (0 :: r) (r ++ [0]) end.
 Definition binom_tab (i j : nat) : Z := nth j (pascal_row i) 0.
 Definition cns_enc (v : Z) (k : Z) : Z := binom_tab (Z.to_nat v) (Z.to_nat k).
+(* the constructor on a W-bit unsigned type (W = 2^128): every addition wraps; after filling row i >= 2 it compares the entry
+   B[mi][i], mi = min(i/2, k), with B[mi][i-1] and throws overflow_error when it decreased.  None = thrown.
+   (The C++ keeps the columns j <= k only; column j of a row depends on the columns j-1, j of the previous row.) *)
+Definition wrap_row (W : Z) (r : list Z) : list Z := map (fun x => x mod W) (zip_add (0 :: r) (r ++ [0])).
+Fixpoint cns_ctor_rows (W : Z) (k : nat) (i : nat) : option (list Z) :=
+  match i with
+  | O => Some [1]
+  | S i' =>
+    match cns_ctor_rows W k i' with
+    | None => None
+    | Some r =>
+      let r' := wrap_row W r in
+      let mi := Nat.min (S i' / 2) k in
+      if (1 <? S i')%nat && (nth mi r' 0 <? nth mi r 0) then None else Some r'
+    end
+  end.
+Definition cns_ctor_ok (k n : nat) : bool :=
+  match cns_ctor_rows (2 ^ 128) k n with Some _ => true | None => false end.
+
 (* get_max(top, bottom, pred): binary search of the largest w in [bottom, top] with pred w *)
 Fixpoint get_max_loop (fuel : nat) (pred : Z -> bool) (top count : Z) : Z :=
   match fuel with
